@@ -256,6 +256,7 @@ package cache
 //@ func (*Matcher).orMatch
 //@   props C12
 //@   nopanic
+//@   opt pre_only_if=filterset
 //@   requires [filters-set] forall k int :: { filters[k] } 0 <= k && k < len(filters) ==> filters[k] != nil
 //@   modifies nothing
 //@   ensures [any-of] result == (len(filters) == 0 || (exists k int :: { filters[k] } 0 <= k && k < len(filters) && filters[k](excerpt, resolvers)))
@@ -265,6 +266,7 @@ package cache
 //@ func (*Matcher).andMatch
 //@   props C12
 //@   nopanic
+//@   opt pre_only_if=filterset
 //@   requires [filters-set] forall k int :: { filters[k] } 0 <= k && k < len(filters) ==> filters[k] != nil
 //@   modifies nothing
 //@   ensures [all-of] result == (forall k int :: { filters[k] } 0 <= k && k < len(filters) ==> filters[k](excerpt, resolvers))
@@ -275,6 +277,8 @@ package cache
 //@ func (*Matcher).Match
 //@   props C12
 //@   nopanic
+//@   opt filterset
+//@   opt pre_only_if=filterset
 //@   requires f != nil
 //@   requires [filters-set] (forall k int :: { f.Status[k] } 0 <= k && k < len(f.Status) ==> f.Status[k] != nil) && (forall k int :: { f.Author[k] } 0 <= k && k < len(f.Author) ==> f.Author[k] != nil) && (forall k int :: { f.Metadata[k] } 0 <= k && k < len(f.Metadata) ==> f.Metadata[k] != nil) && (forall k int :: { f.Actor[k] } 0 <= k && k < len(f.Actor) ==> f.Actor[k] != nil) && (forall k int :: { f.Participant[k] } 0 <= k && k < len(f.Participant) ==> f.Participant[k] != nil) && (forall k int :: { f.Label[k] } 0 <= k && k < len(f.Label) ==> f.Label[k] != nil) && (forall k int :: { f.Title[k] } 0 <= k && k < len(f.Title) ==> f.Title[k] != nil) && (forall k int :: { f.NoFilters[k] } 0 <= k && k < len(f.NoFilters) ==> f.NoFilters[k] != nil)
 //@   modifies nothing
